@@ -208,17 +208,23 @@ pub fn run(ctx: &mut Ctx, _replay: Option<&[String]>) {
                 panic_every, built: Arc::new(AtomicU64::new(0)), seed: ctx.seed,
             };
             let h2 = h.clone();
+            // half of the failing runs have a reporter attached: the final `Finished` report must arrive also when the run fails
+            let with_reporter = (w + name.len()) % 2 == 0;
             let out = with_watchdog(move || {
+                let (tx, rx) = mpsc::channel();
                 let r = guarded(move || {
                     BerTestBuilder {
                         h: h2, decoder_implementation: fac, modulation, puncturing_pattern: punct.as_deref(),
                         interleaving_columns: inter, max_frame_errors: 5, max_iterations: 9, ebn0s_db: &[60.0],
-                        reporter: None, bch_max_errors: 0,
+                        reporter: if with_reporter { Some(Reporter { tx, interval: Duration::ZERO }) } else { None }, bch_max_errors: 0,
                     }.build().map(|t| t.run().map(|_| ()).map_err(|_| ())).map_err(|_| ())
                 });
+                let reports: Vec<Report> = rx.try_iter().collect();
+                let fin = if !with_reporter { "" } else if matches!(reports.last(), Some(Report::Finished))
+                    && reports.iter().filter(|r| matches!(r, Report::Finished)).count() == 1 { "" } else { "-without-final-finished-report" };
                 match r {
-                    Ok(Ok(Ok(()))) => "ok".to_string(),
-                    Ok(Ok(Err(()))) => "err".to_string(),
+                    Ok(Ok(Ok(()))) => format!("ok{}", fin),
+                    Ok(Ok(Err(()))) => format!("err{}", fin),
                     Ok(Err(())) => "err-at-build".to_string(),
                     Err(_) => "panic".to_string(),
                 }
